@@ -125,9 +125,9 @@ func (w *c05World) basicPw(user string) string {
 // c05Cred describes the Authorization material of one request.
 type c05Cred struct {
 	Name   string
-	Scheme string // "", basic, ntlm, negotiate-ntlm, kerberos, raw
-	User   string // user the credentials belong to when they are valid
-	Valid  bool   // the backend confirms them (if the scheme is enabled)
+	Scheme string   // "", basic, ntlm, negotiate-ntlm, kerberos, raw
+	User   string   // user the credentials belong to when they are valid
+	Valid  bool     // the backend confirms them (if the scheme is enabled)
 	Raw    []string // literal Authorization header values (raw)
 	// ntlm flow variants: "" normal, "type3-new-connection", "type3-other-connections-challenge", "replayed-type3", "type1-twice", "wrong-password", "unknown-user"
 	Flow string
@@ -322,13 +322,13 @@ func c05Run(l *Lab, rep *Report, w *c05World) {
 	methods := []string{"RDG_OUT_DATA-upgrade", "RDG_OUT_DATA", "RDG_IN_DATA", "GET", "POST", "OPTIONS", "rdg_out_data-upgrade", "get"}
 	basic := func(u, p string) string { return "Basic " + B64([]byte(u+":"+p)) }
 	type cred struct {
-		name    string
-		hdr     Hdr
-		pre     func(hc *HConn, method string) (Hdr, error)
-		scheme  string // mechanism that would have to be enabled: local, ntlm, kerberos, ""
-		valid   bool
-		user    string
-		basicUP *[2]string // decodable basic credentials (conservation)
+		name     string
+		hdr      Hdr
+		pre      func(hc *HConn, method string) (Hdr, error)
+		scheme   string // mechanism that would have to be enabled: local, ntlm, kerberos, ""
+		valid    bool
+		user     string
+		basicUP  *[2]string // decodable basic credentials (conservation)
 		gen      func() Hdr // fresh headers per request (Kerberos authenticators are single-use)
 		dontcare bool       // refusal is not judged (wrong-case scheme word with valid credentials)
 	}
@@ -556,6 +556,60 @@ func c05Run(l *Lab, rep *Report, w *c05World) {
 				rep.Sample(detail)
 			}
 		}
+	}
+	// overlapping Basic requests of one user with different passwords (stand-in service made slow)
+	if w.fake != nil && has(w.mech, "local") {
+		w.fake.mu.Lock()
+		w.fake.BasicDelay = 40 * time.Millisecond
+		w.fake.mu.Unlock()
+		before := len(w.fake.BasicCalls())
+		type res struct {
+			right  bool
+			status int
+		}
+		var mu sync.Mutex
+		var results []res
+		var wg sync.WaitGroup
+		rounds := l.Pick(6, 40)
+		for r := 0; r < rounds; r++ {
+			for k := 0; k < 6; k++ {
+				wg.Add(1)
+				go func(k int) {
+					defer wg.Done()
+					time.Sleep(time.Duration(k) * 4 * time.Millisecond)
+					pw := "wrong-password"
+					if k%2 == 0 {
+						pw = w.basicPw(w.u1)
+					}
+					out := w.c05Request("GET", Hdr{{"Authorization", basic(w.u1, pw)}}, nil)
+					if out.Err == nil {
+						mu.Lock()
+						results = append(results, res{k%2 == 0, out.Status})
+						mu.Unlock()
+					}
+				}(k)
+			}
+			wg.Wait()
+		}
+		w.fake.mu.Lock()
+		w.fake.BasicDelay = 0
+		w.fake.mu.Unlock()
+		calls := len(w.fake.BasicCalls()) - before
+		for _, r := range results {
+			if !r.right && r.status == 200 {
+				rep.Violate("C05/handler-reached-without-confirmed-credentials/"+name+"/concurrent-basic", fmt.Sprintf("mechanisms %v: a request with a wrong password reached the handler while a request with the right password of the same user was being verified", w.mech), nil)
+				break
+			}
+			if r.right && r.status != 200 {
+				rep.Violate("C05/confirmed-credentials-refused/"+name+"/concurrent-basic", fmt.Sprintf("mechanisms %v: a request with the right password was refused (%d) while other requests of the same user were being verified", w.mech, r.status), nil)
+				break
+			}
+		}
+		if calls != len(results) {
+			rep.Violate("C05/basic-backend-calls/"+name+"/concurrent", fmt.Sprintf("%d overlapping Basic requests produced %d backend calls", len(results), calls), nil)
+		}
+		rep.Count("concurrent_basic_requests", len(results))
+		rep.Eval(HashStr(name, "concurrent-basic"))
 	}
 	// PAM conservation for the real service: no Basic call may reach PAM when local is disabled
 	if w.authp != nil && !has(w.mech, "local") {
